@@ -523,7 +523,59 @@ class Interp:
         return items
 
     # ------------------------------------------------------------------ calls
+    def _comp_ordinal(self, node):
+        """ordinal of a comprehension / generator expression among those of the current function (source order)"""
+        fr = self.frames[-1]
+        k = 0
+        for x in ast.walk(fr.node):
+            if isinstance(x, (ast.GeneratorExp, ast.ListComp)):
+                if x is node:
+                    return k
+                k += 1
+        return -1
+
+    def _symbolic_comprehension(self, n, mode):
+        """any / all / sum / list over a comprehension whose iterable has symbolic length: desugared into the loop
+        `_r = init; for target in it: [if conds:] step` and run with the sidecar invariant registered for ('comp', k)"""
+        if len(n.generators) != 1:
+            raise Unsupported("nested comprehension over a symbolic collection")
+        g = n.generators[0]
+        fr = self.frames[-1]
+        key = 'comp%d' % self._comp_ordinal(n)
+        R = ast.Name(id='_r', ctx=ast.Load())
+        Rs = ast.Name(id='_r', ctx=ast.Store())
+        if mode == 'any':
+            init, step = False, [ast.If(test=n.elt, body=[ast.Assign(targets=[Rs], value=ast.Constant(True)), ast.Break()], orelse=[])]
+        elif mode == 'all':
+            init, step = True, [ast.If(test=ast.UnaryOp(op=ast.Not(), operand=n.elt), body=[ast.Assign(targets=[Rs], value=ast.Constant(False)), ast.Break()], orelse=[])]
+        elif mode == 'sum':
+            init, step = 0, [ast.AugAssign(target=Rs, op=ast.Add(), value=n.elt)]
+        else:
+            init = self.new_list([])
+            step = [ast.Expr(ast.Call(func=ast.Attribute(value=R, attr='append', ctx=ast.Load()), args=[n.elt], keywords=[]))]
+        for cond in reversed(g.ifs):
+            step = [ast.If(test=cond, body=step, orelse=[])]
+        loop = ast.For(target=g.target, iter=ast.Name(id='__comp_iter', ctx=ast.Load()), body=step, orelse=[])
+        ast.fix_missing_locations(ast.Module(body=[loop], type_ignores=[]))
+        loop._pyvc_key = key
+        saved = {k_: fr.env[k_] for k_ in ('_r', '__comp_iter') if k_ in fr.env}
+        fr.env['_r'] = init
+        fr.env['__comp_iter'] = self.ev(g.iter)
+        try:
+            self.models.run_loop(self, loop)
+            return fr.env['_r']
+        finally:
+            for k_ in ('_r', '__comp_iter'):
+                fr.env.pop(k_, None)
+            fr.env.update(saved)
+
     def ev_Call(self, n):
+        if isinstance(n.func, ast.Name) and n.func.id in ('any', 'all', 'sum') and len(n.args) == 1 and isinstance(n.args[0], ast.GeneratorExp) \
+                and not self.st.merge and n.func.id not in self.frames[-1].env:
+            g0 = n.args[0].generators[0]
+            itv = self.ev(g0.iter)
+            if self.meta_items(itv) is None:
+                return self._symbolic_comprehension(n.args[0], n.func.id)
         f = self.ev(n.func)
         args = []
         for a in n.args:
@@ -752,27 +804,33 @@ class Interp:
                 return self.ev(node.body)
             is_gen = any(isinstance(x, (ast.Yield, ast.YieldFrom)) for x in _walk_fn(node))
             if is_gen:
-                fr.yields = []
+                # the values yielded so far live in a list cell named _yields (so loop invariants can speak about them)
+                fr.yields = self.new_list([])
+                fr.env['_yields'] = fr.yields
             try:
                 self.run_block(node.body)
             except _Return as r:
                 if is_gen:
-                    return tuple(fr.yields)
+                    return self._yielded(fr)
                 return self.models.finish_pending(self, fr, r.value)
             if is_gen:
-                return tuple(fr.yields)
+                return self._yielded(fr)
             return self.models.finish_pending(self, fr, None)
         finally:
             self.frames.pop()
 
+    def _yielded(self, fr):
+        c = self.st.cell(fr.yields)
+        return tuple(c['items']) if 'items' in c else c['seq']
+
     def ev_Yield(self, n):
         fr = self.frames[-1]
-        fr.yields.append(None if n.value is None else self.ev(n.value))
+        self.models.cell_method(self, fr.yields, 'append', [None if n.value is None else self.ev(n.value)], {})
         return None
 
     def ev_YieldFrom(self, n):
         fr = self.frames[-1]
-        fr.yields.extend(self.iter_values(self.ev(n.value)))
+        self.models.cell_method(self, fr.yields, 'extend', [self.ev(n.value)], {})
         return None
 
     # ------------------------------------------------------------------ statements
